@@ -410,6 +410,9 @@ class Hazards(object):
     for (p, f, c, ok) in sl:
       if isinstance(c, ast.Slice) and asks(self.spec, p, f, c):
         self.found.add('D12-slice')
+      if (isinstance(c, ast.Tuple) and any(isinstance(x, ast.Slice) for x in c.elts)
+          and ok and should_name(self.spec, p, f, c)):
+        self.found.add('D12-slice')        # o[i, lo:hi]: the index tuple holding the slice is named
     return self.combine(sl, top_effect(e))
 
   def combine(self, sl, top):
@@ -758,10 +761,10 @@ class Gen(object):
       return out
     if k == 'while':
       f = 'f_%d' % self.U()
-      test = '%s < 2' % f
+      test = f                      # a bare name: any other test is named under the default configuration -> rejected
       if rnd.random() < self.lazy_p * 4:
-        test = '%s + %s * 0 < 2' % (f, self.eff_leaf(vs))
-      return ['%s%s = 0' % (ind, f), '%swhile %s:' % (ind, test), '%s%s += 1' % (ind2, f)] + self.block(ind2, depth + 1, vs, budget)
+        test = '%s + %s * 0 > 0' % (f, self.eff_leaf(vs))
+      return ['%s%s = 2' % (ind, f), '%swhile %s:' % (ind, test), '%s%s -= 1' % (ind2, f)] + self.block(ind2, depth + 1, vs, budget)
     if k == 'def':
       g = 'loc_%d' % self.U()
       body = ['%sq = %s' % (ind2, self.ie(d, ['p', 'x']))] if rnd.random() < 0.5 else ['%sq = p' % ind2]
@@ -926,7 +929,8 @@ def shrink(src, spec, kind):
       if i >= len(lst):
         continue
       saved = lst[i]
-      repl = []
+      if _protected(saved):
+        continue
       # try: drop the statement; or replace a compound statement by its body
       options = [[]]
       if hasattr(saved, 'body') and not isinstance(saved, ast.FunctionDef):
@@ -954,6 +958,16 @@ def shrink(src, spec, kind):
       if done:
         break
   return cur
+
+
+def _protected(st):
+  """initialisations and loop fuel: deleting them turns the program into a NameError / an endless loop"""
+  if isinstance(st, ast.Assign) and len(st.targets) == 1 and isinstance(st.targets[0], ast.Name):
+    n = st.targets[0].id
+    return n.startswith('f_') or (n in ('z', 'w') and isinstance(st.value, ast.Constant)) or n == 'q'
+  if isinstance(st, ast.AugAssign) and isinstance(st.target, ast.Name):
+    return st.target.id.startswith('f_')
+  return isinstance(st, ast.FunctionDef)
 
 
 def work(item):
@@ -1037,6 +1051,10 @@ WITNESSES = [
     ('known-D12-slice', 'slice-hoisted', None,
      'def f(x, y, a, o):\n  return a[t(0):t(2)]\n',
      'the ast.Slice node is hoisted into `tmp = lo:hi` (guard tests the obsolete ast.slice)'),
+    ('known-D12-slice', 'tuple-containing-slice-hoisted',
+     [_r(None, None, ['Slice'], 'LEAVE'), _r(None, None, ['Constant', 'Name'], 'LEAVE'), _r(None, None, ['expr'], 'REPLACE')],
+     'def f(x, y, a, o):\n  return o[t(1), t(2):]\n',
+     'o[i, lo:hi]: with the slice itself left alone, the index tuple holding it is hoisted into `tmp = (i, lo:hi)`'),
     ('new-D15-hoist-order', 'nested-operand', None,
      'def f(x, y, a, o):\n  return t(1) + (-t(2))\n',
      'statements hoisted out of a later operand precede the evaluation of an earlier sibling operand'),
@@ -1085,7 +1103,7 @@ def main():
   ap.add_argument('--no-witnesses', action='store_true')
   ap.add_argument('--maxfail', type=int, default=10)
   a = ap.parse_args()
-  n = a.n if a.n is not None else (150000 if a.tier == 'thorough' else 9000)
+  n = a.n if a.n is not None else (120000 if a.tier == 'thorough' else 6000)
   items = [(i, a.seed * 1000003 + i, 1 + (i % 4), a.include_hazards) for i in range(n)]
   evaluated = programs = accepted = rejected = excluded = noprog = 0
   rej_kinds = {}
